@@ -79,6 +79,9 @@ func main() {
 			run.Distinct(tag)
 			rec := recs[0]
 			w := map[string]any{"round": round, "client": e.conn, "protocol": e.proto, "tag": tag}
+			if run.WantSample() {
+				run.Sample(map[string]any{"round": round, "client": e.conn, "protocol": e.proto, "tag": tag, "backend_ja3": rec.Header.Get("X-Ja3-Fingerprint"), "backend_ja4": rec.Header.Get("X-Ja4-Fingerprint"), "backend_http2": rec.Header.Get("X-Http2-Fingerprint"), "expected_ja3": e.ja3, "expected_ja4": e.ja4})
+			}
 			check := func(name, wantv string, others map[string]int) {
 				vals := rec.Header.Values(name)
 				if len(vals) == 1 && vals[0] == wantv {
